@@ -128,7 +128,18 @@ class Gen:
         yielded = False
         for _ in range(nact):
             r = rng.random()
-            if flavor == "gen" and r < 0.45:
+            if flavor == "gen" and r < 0.12:
+                # consecutive yields of one call: a generic then a value of its parameter's type; values of one class whose types differ;
+                # dicts that differ only inside a nested dict
+                b, c = self.value(), self.value()
+                lines.extend("yield " + e for e in rng.choice([
+                    [f"[{b}]", b], [f"({b}, {c})", c], [f"type({b})", b], [f"[[{b}]]", f"[{b}]"], [f"{{'a': {b}}}", b],
+                    [f"[{b}]", f"[{c}]"], [f"({b}, None)", f"(None, {c})"], [f"type({b})", f"type({c})"], [f"{{1: {b}}}", f"{{1: {c}}}"],
+                    [f"{{'a': {{'x': {b}}}, 'b': 1}}", f"{{'a': {{'y': {b}}}, 'b': 1}}"], [f"{{'a': [{{'x': {b}}}]}}", f"{{'a': [{{'y': {c}}}]}}"],
+                    [b, b, c, b],
+                ]))
+                yielded = True
+            elif flavor == "gen" and r < 0.45:
                 ye = rng.choice([self.value(), self.value(), "None", params[0] if params else self.value()])
                 y = f"yield {ye}" if rng.random() < 0.7 else f"_s = yield {ye}"
                 if rng.random() < 0.15:
